@@ -61,7 +61,20 @@ func checkVariant(sc *bw.Scenario, w *world, cl *closure, res *vresult, out *sim
 		return
 	}
 	expectErr := len(cl.errs) > 0
-	if faultFree(sc) && !cl.unknown {
+	roUnknown := false
+	if sc.UID != 0 {
+		// an unprivileged builder cannot discard (or prune below) a read-only directory; whether
+		// it has to depends on which twin is placed first. Success and failure are both
+		// legitimate then; the absolute clauses (trace bracketing, poisoning) still apply.
+		for pi := range sc.Pkgs {
+			for _, f := range sc.Pkgs[pi].Files {
+				if cl.fetched[pi] && f.Kind == "dir" && f.Mode != 0 && f.Mode&0o200 == 0 {
+					roUnknown = true
+				}
+			}
+		}
+	}
+	if faultFree(sc) && !cl.unknown && !roUnknown {
 		if expectErr && !res.anyErr && cl.treeErr {
 			out.Violate("C10", "bad-tree-accepted", "accepted", fmt.Sprintf("variant %d: a fetched package must be refused (%s) but no Add call reported an error", vi, strings.Join(cl.errs, "; ")))
 		} else if expectErr && !res.anyErr {
